@@ -1,8 +1,9 @@
 (* Pipeline: facts about the concrete instance used by the examples of Properties/Pipeline.v. *)
-From Coq Require Import List NArith Bool Arith Lia Permutation.
+From Coq Require Import List NArith ZArith Bool Arith Lia Permutation.
 Import ListNotations.
 From BioVerif Require Import Model.Pipeline Spec.PipelineSpec.
-From BioVerif Require Model.AdjRIBOut Model.LocRIBClients Model.UpdateSender Spec.LocRIBClientsSpec Spec.UpdateSenderSpec.
+From BioVerif Require Model.AdjRIBIn Model.AdjRIBOut Model.LocRIBClients Model.UpdateSender Model.LocView
+  Spec.LocRIBClientsSpec Spec.ExportViewSpec Spec.UpdateSenderSpec Proofs.ExportViewD.
 Local Open Scope nat_scope.
 
 Lemma ins_lp_perm : forall e l, Permutation (ins_lp e l) (e :: l).
@@ -35,4 +36,69 @@ Proof.
                 (ss_out AdjRIBOut.chain (ex_sess_at dup_state 1)) 0%N 1%N = Some 167772379303809%N) by (vm_compute; reflexivity).
   repeat split; try (vm_compute; reflexivity).
   intros H. specialize (H 0%N 1%N). rewrite K in H. vm_compute in H. discriminate.
+Qed.
+
+(* ------------------------------------------------------------------ the hypotheses of the end-to-end theorems hold on the
+   example: the listener (session 2) after both clients announced and its sender was drained *)
+Notation ex_st1 := (run AdjRIBOut.chain AdjRIBOut.interp ex_sel ex_tagf ex_cfgs (ex_evs1 ++ ex_drain2a)).
+Definition ex_s2 := ex_sess_at ex_st1 2.
+Definition ex_c2 := ex_scfg true false 65000%N 167772163%N (AdjRIBIn.sample_policy 0 0).
+
+Lemma ex_guards_hold : ExportViewSpec.guards (AdjRIBOut.interp (sc_exp _ ex_c2)) (sc_sess _ ex_c2) (ss_hist _ ex_s2).
+Proof.
+  set (h := ss_hist _ ex_s2). vm_compute in h.
+  constructor.
+  - apply ExportViewD.transparent_ibgp_nonclient; reflexivity.
+  - intros pfx l p HI HP. subst h. cbn [In] in HI.
+    repeat (destruct HI as [HI|HI]; [inversion HI; subst; cbn [In] in HP;
+      repeat (destruct HP as [HP|HP]; [subst; eauto|]); destruct HP|]). destruct HI.
+  - intros HA. discriminate HA.
+  - intros HA. discriminate HA.
+  - intros pfx l HI. subst h. cbn [In] in HI.
+    repeat (destruct HI as [HI|HI]; [inversion HI; subst; repeat constructor; cbn; intuition discriminate|]). destruct HI.
+  - intros _ pfx l HI. subst h. cbn [In] in HI.
+    repeat (destruct HI as [HI|HI]; [inversion HI; subst; cbn; lia|]). destruct HI.
+  - intros pfx r b q H. eapply ExportViewD.interp_bgp; eassumption.
+Qed.
+
+Section C10Guards.
+  Import UpdateSender UpdateSenderSpec.
+
+  Lemma ex_c10_guards :
+    let ls := rev (ss_lab _ ex_s2) in
+    client_protocol (sc_us _ ex_c2) ls /\ hash_faithful (sc_us _ ex_c2) ls /\ all_fit (sc_us _ ex_c2) ls /\
+    no_withdraw_in_flight (sc_us _ ex_c2) ls.
+  Proof.
+    cbv zeta. set (ls := rev (ss_lab _ ex_s2)). vm_compute in ls. subst ls.
+    split; [cbn; auto 12|]. split.
+    { cbn. repeat split; try tauto;
+        intros e He Hk;
+        repeat (destruct He as [He|He]; [subst e; cbn in Hk |- *; first [reflexivity | discriminate]|]);
+        try contradiction. }
+    split.
+    { cbn. repeat split; unfold fits; vm_compute; discriminate. }
+    cbn. repeat split; try tauto.
+  Qed.
+
+  Lemma ex_log_tracks : log_tracks_table _ ex_tagf (sc_us _ ex_c2) (ss_out _ ex_s2).
+  Proof.
+    intros p pid. unfold keyed_table, client_calls.
+    set (el := AdjRIBOut.elog (ss_out _ ex_s2)). vm_compute in el.
+    set (tb := AdjRIBOut.tbl (ss_out _ ex_s2)). vm_compute in tb.
+    subst el tb. unfold AdjRIBOut.tbl_get. cbn [rev app map lab_of filter fst snd].
+    unfold adj_rib_out. cbn [fold_left rib_step]. unfold rib_upd, rib_empty, upfx, pfx_eqb. cbn [x_addr x_len].
+    change (wpid (sc_us AdjRIBOut.chain ex_c2)) with (fun _ : path => 0%N). cbv beta.
+    rewrite (N.eqb_sym 1 p).
+    destruct (N.eqb p 1) eqn:E1; cbn [andb filter map rev app find]; [|now destruct (N.eqb pid 0)].
+    rewrite (N.eqb_sym 0 pid). destruct (N.eqb pid 0) eqn:E2; cbn; reflexivity.
+  Qed.
+End C10Guards.
+
+Lemma ex_state_facts :
+  locrib_paths_distinct _ ex_st1 /\ nth_error ex_cfgs 2 = Some ex_c2 /\ nth_error (ps_sess _ ex_st1) 2 = Some ex_s2 /\
+  ss_up _ ex_s2 = true /\ AdjRIBOut.errs (ss_out _ ex_s2) = 0%N /\ drained _ ex_s2 = true.
+Proof.
+  split; [vm_compute; repeat constructor; cbn; intuition discriminate|].
+  split; [vm_compute; reflexivity|]. split; [vm_compute; reflexivity|]. split; [vm_compute; reflexivity|].
+  split; vm_compute; reflexivity.
 Qed.
